@@ -1,7 +1,7 @@
 //! C12: JobList.  Replays every (state, operation) pair of the TLC state graph
 //! of spec/JobList.tla on a real `yash_env::job::JobList` and records the
 //! observed `{pre, op, res, post}` for validation against spec/JobListAbs.tla.
-use crate::util;
+use yvcommon::util;
 use rand::{Rng, SeedableRng};
 use serde_json::{Value, json};
 use std::collections::HashSet;
